@@ -43,6 +43,14 @@ if hasattr(S, "TCP_KEEPINTVL"):
 if hasattr(S, "TCP_KEEPCNT"):
     DEFAULTS.append((S.SOL_TCP, S.TCP_KEEPCNT, 3))
 
+try:  # the library exports its documented default list; "the default options" means that list
+    from websocket._socket import DEFAULT_SOCKET_OPTION as _EXPORTED
+
+    if _EXPORTED:
+        DEFAULTS = [tuple(o) for o in _EXPORTED]
+except Exception:  # pragma: no cover
+    pass
+
 OUTCOMES = ("accept", "refused", "unreach", "other")
 
 
